@@ -4,3 +4,24 @@
 typedef int8_t  sbit_t;
 typedef uint8_t ubit_t;
 typedef uint8_t pbit_t;
+
+/* libosmocore's generated bit16gen.h / bit32gen.h / bit64gen.h API (load/store of 16, 32 and 64 bit values in either
+ * byte order, with and without explicit octet count), written out so that code using any of them compiles */
+#define OSMO_SHIM_BITGEN(N, T) \
+static inline T osmo_load##N##le_ext(const void *p, uint8_t n) \
+{ uint8_t i; T r = 0; const uint8_t *q = (const uint8_t *)p; \
+  for (i = 0; i < n; i++) r |= ((T)q[i] << (8 * i)); return r; } \
+static inline T osmo_load##N##be_ext(const void *p, uint8_t n) \
+{ uint8_t i; T r = 0; const uint8_t *q = (const uint8_t *)p; \
+  for (i = 0; i < n; i++) r |= ((T)q[i] << (N - 8 * (1 + i))); return r; } \
+static inline void osmo_store##N##le_ext(T x, void *p, uint8_t n) \
+{ uint8_t i; uint8_t *q = (uint8_t *)p; for (i = 0; i < n; i++) q[i] = (x >> (i * 8)) & 0xFF; } \
+static inline void osmo_store##N##be_ext(T x, void *p, uint8_t n) \
+{ uint8_t i; uint8_t *q = (uint8_t *)p; for (i = 0; i < n; i++) q[i] = (x >> ((n - 1 - i) * 8)) & 0xFF; } \
+static inline T osmo_load##N##le(const void *p) { return osmo_load##N##le_ext(p, N / 8); } \
+static inline T osmo_load##N##be(const void *p) { return osmo_load##N##be_ext(p, N / 8); } \
+static inline void osmo_store##N##le(T x, void *p) { osmo_store##N##le_ext(x, p, N / 8); } \
+static inline void osmo_store##N##be(T x, void *p) { osmo_store##N##be_ext(x, p, N / 8); }
+OSMO_SHIM_BITGEN(16, uint16_t)
+OSMO_SHIM_BITGEN(32, uint32_t)
+OSMO_SHIM_BITGEN(64, uint64_t)
